@@ -396,7 +396,9 @@ def initialize_pit(net):
     # are derived from them, otherwise branch start values depend on the component order
     for comp in net['component_list']:
         comp.create_pit_node_entries(net, pit["node"])
-    for comp in net['component_list']:
+    # valves at pipe ends rewire rows of the pipe table: their entries are created after all others,
+    # whatever the order in which the component tables were added to the net
+    for comp in sorted(net['component_list'], key=lambda c: c.table_name() == "valve"):
         comp.create_pit_branch_entries(net, pit["branch"])
         comp.create_component_array(net, pit["components"])
 
